@@ -6,7 +6,7 @@ set -e
 PATCH=$(readlink -f "$1"); shift
 D=/tmp/mut-$$
 git -C /repo worktree add -q --detach $D/wt HEAD
-( cd $D/wt && git apply "$PATCH" )
+( cd $D/wt && ( git apply "$PATCH" 2>/dev/null || git apply --3way "$PATCH" ) )
 mkdir -p $D/verif
 rsync -a --exclude harness/target --exclude harness/target-verif --exclude work --exclude replays --exclude .git /verif/ $D/verif/ || [ $? -eq 24 ]
 grep -rl '/repo/' $D/verif/harness/*/Cargo.toml $D/verif/vlib/core.py $D/verif/extract.py 2>/dev/null | xargs sed -i "s#/repo/#$D/wt/#g; s#\"/repo\"#\"$D/wt\"#g"
